@@ -222,6 +222,9 @@ pub fn gen_history_from(rng: &mut Rng, k: &Knobs, start: &Model) -> Vec<Op> {
         if k.avoids("vacuum_after_compact") && cx.compacted_once {
             w[6] = 0;
         }
+        if k.avoids("big_value_with_index") && k.big_values {
+            w[3] = 0;
+        }
         if w.iter().all(|x| *x == 0) {
             break;
         }
